@@ -96,6 +96,10 @@ void verif_assert_concrete(int c, const char* msg)
     if (vc_trace) fprintf(stderr, "   assert: %s\n", msg);
     if (!c) verif_concrete_finish("FAIL", msg);
 }
+void verif_enc_assert_concrete(int c, const char* msg)
+{
+    if (!c) verif_concrete_finish("FAIL", msg);
+}
 void verif_assume_concrete(int c)
 {
     if (!c) verif_concrete_finish("ASSUME", "");
